@@ -1,4 +1,5 @@
 """C05 - exactly the out-of-date stored values are rebuilt; a repeated run does nothing."""
+import json
 import random
 
 from vmon import env, histcheck
@@ -34,7 +35,7 @@ def gen_cases(tier, seed):
     return out
 
 
-def run_file(desc):
+def run_file(desc, prop="C05"):
     """Histories over the bundled FILE stores with execution counters in the plan's functions: build, repeat (silent), update the source
     (sometimes so that a downstream value is rebuilt to byte-identical content), touch, delete; after every run exactly the values the
     real file times make out of date are recomputed, once, and an immediately repeated run computes and rewrites nothing."""
@@ -108,6 +109,21 @@ def run_file(desc):
             counters["file_runs_checked"] += 1
             did = {k: F.CALLS[k] - calls0.get(k, 0) for k in names[1:]}
             want_calls = {k: (1 if o[k] else 0) for k in names[1:]}
+            if prop == "C03":
+                # C03's clause: after every successful run each stored value equals the from-scratch value for the current source
+                for k in names[1:]:
+                    try:
+                        got_v = stores[k].read()
+                    except BaseException as e:
+                        bad = f"step {step} ({op}; history {log}): {k} cannot be read after a successful run: {e!r}"
+                        break
+                    if json.loads(json.dumps(got_v)) != json.loads(json.dumps(want_before[k])):
+                        bad = (f"step {step} ({op}; history {log}{', source path is a symbolic link' if symlinked else ''}): after a successful run {k} holds "
+                               f"{str(got_v)[:80]!r}, from-scratch evaluation on the current source gives {str(want_before[k])[:80]!r}")
+                        break
+                if bad:
+                    break
+                continue
             if did != want_calls:
                 bad = (f"step {step} ({op}; history {log}): recomputed {did}, but the file times before the run make exactly {sorted(k for k in names[1:] if o[k])} "
                        f"out of date (each once)")
@@ -137,7 +153,7 @@ def run_file(desc):
     counters["file_histories_symlinked_source"] = int(symlinked)
     res = {"status": "ok", "counters": counters, "nontrivial": counters["file_identical_rebuilds"] > 0, "sig": f"file|{shape}|{c_json}|{symlinked}|{log}"}
     if bad:
-        res.update(status="violation", detail=f"[file-backed stores {'json c' if c_json else 'pickle c'}] {bad}", mechanism="c05-oracle", witness={"history": log})
+        res.update(status="violation", detail=f"[file-backed stores {'json c' if c_json else 'pickle c'}] {bad}", mechanism=prop.lower() + "-oracle", witness={"history": log})
     return res
 
 
